@@ -141,10 +141,11 @@ func runConnScenario(rng *rand.Rand, max, clients int, idle time.Duration, stopE
 }
 
 func checkC17(r *Result, rng *rand.Rand, thorough bool) {
-	r.Rule = "real TCP server: MaxConnections in {1,2,3}, 3 x max concurrent clients holding their connection 0-20 ms, IdleTimeout 40 ms (reaper interval 20 ms) or 5 min, Stop at a random instant or after all clients left; an observer samples connCount vs len(activeConns) every 0.2 ms; goroutines counted after Stop; Close/Unexport repeated and after in-flight handlers; non-trivial = more clients than the limit; distinct = distinct (max, clients, idle, stop, outcome)"
+	r.Rule = "real TCP server: MaxConnections in {1,2,3}, 3 x max concurrent clients holding their connection 0-20 ms, IdleTimeout 40 ms (reaper interval 20 ms) or 5 min, Stop at a random instant or after all clients left; an observer samples connCount vs len(activeConns) every 0.2 ms; goroutines counted after Stop; Close/Unexport repeated and after in-flight handlers; Stop under a storm of arriving connections (120 established, 8 dialers); non-trivial = more clients than the limit; distinct = distinct (max, clients, idle, stop, outcome)"
 	runs := 8
 	if thorough {
 		runs = 120
+		stormRounds = 25
 	}
 	var cases []Case
 	var impl [][]string
@@ -188,6 +189,8 @@ func checkC17(r *Result, rng *rand.Rand, thorough bool) {
 
 // closeChecks: Close / Unexport release everything, are idempotent — and the recorded finding: an in-flight
 // handler goroutine repopulates handles and cache after Close returned.
+var stormRounds = 3
+
 func closeChecks(r *Result) {
 	for _, which := range []string{"close", "unexport", "close-close", "unexport-close"} {
 		fs := NewRefFS()
@@ -262,6 +265,7 @@ func closeChecks(r *Result) {
 		r.violate(Violation{Class: "C17/close-leaves-state", What: fmt.Sprintf("right after Close: %d handles, %d cache entries", h0, a0)})
 	}
 	closeDuringRequest(r)
+	stopUnderConnectStorm(r, stormRounds)
 	if h1 != 0 || a1 != 0 {
 		r.violate(Violation{Class: "C17/close-with-inflight-handler", What: fmt.Sprintf("a LOOKUP still inside the backend when Close returned put %d handle(s) and %d attribute-cache entr(ies) back afterwards", h1, a1),
 			Ops: []string{"close-with-inflight-handler"}})
@@ -337,5 +341,77 @@ func closeDuringRequest(r *Result) {
 	r.count("close-during-request:" + outcome)
 	if h != 0 || a != 0 || d != 0 {
 		r.violate(Violation{Class: "C17/close-leaves-state", What: fmt.Sprintf("a request that finished while Close was stopping the server (client outcome %q) left %d handle(s), %d attribute-cache and %d directory-cache entr(ies) behind when Close returned", outcome, h, a, d), Ops: []string{"close-during-request"}})
+	}
+}
+
+// stopUnderConnectStorm: Stop while many connections exist and more keep arriving. After Stop has returned no
+// connection may still be served and none may still be accounted for — also the ones that were accepted while
+// Stop was busy closing the others.
+func stopUnderConnectStorm(r *Result, rounds int) {
+	for round := 0; round < rounds; round++ {
+		n, err := absnfs.New(NewRefFS(), absnfs.ExportOptions{MaxConnections: 0, IdleTimeout: 5 * time.Minute, MaxWorkers: 2})
+		must(err)
+		s, err := absnfs.NewServer(absnfs.ServerOptions{Port: 0, Hostname: "127.0.0.1", UseRecordMarking: true})
+		must(err)
+		s.SetHandler(n)
+		must(s.Listen())
+		port := s.GetPort()
+		var mu sync.Mutex
+		var conns []net.Conn
+		dialOne := func(xid uint32) {
+			c, err := net.DialTimeout("tcp", fmt.Sprintf("127.0.0.1:%d", port), time.Second)
+			if err != nil {
+				return
+			}
+			if _, err := rmCall(c, xid, progNFS, 3, 0, nil); err != nil {
+				c.Close()
+				return
+			}
+			mu.Lock()
+			conns = append(conns, c)
+			mu.Unlock()
+		}
+		for i := 0; i < 120; i++ {
+			dialOne(uint32(1000 + i))
+		}
+		stop := make(chan struct{})
+		var wg sync.WaitGroup
+		for g := 0; g < 8; g++ {
+			wg.Add(1)
+			go func(g int) {
+				defer wg.Done()
+				for k := 0; ; k++ {
+					select {
+					case <-stop:
+						return
+					default:
+					}
+					dialOne(uint32(100000 + g*10000 + k))
+				}
+			}(g)
+		}
+		time.Sleep(time.Duration(2+round%5) * time.Millisecond)
+		stopErr := s.Stop()
+		close(stop)
+		wg.Wait()
+		served := 0
+		mu.Lock()
+		all := conns
+		mu.Unlock()
+		for i, c := range all {
+			if _, err := rmCall(c, uint32(900000+i), progNFS, 3, 0, nil); err == nil {
+				served++
+			}
+			c.Close()
+		}
+		cnt, inMap := absnfs.VerifConnCounts(s)
+		n.Close()
+		r.noteCase(fmt.Sprintf("stop-under-connect-storm round %d", round), true)
+		r.count("stop-storm")
+		if served > 0 || stopErr != nil {
+			r.violate(Violation{Class: "C17/served-after-stop", What: fmt.Sprintf("Stop under a storm of new connections: Stop returned %v; afterwards %d of %d connections still answered a NULL call (connCount=%d, registered=%d)", stopErr, served, len(all), cnt, inMap),
+				Ops: []string{"stop-under-connect-storm"}})
+			return
+		}
 	}
 }
